@@ -4,21 +4,1191 @@ import Cherab.Model.Codata
 import Cherab.Gen.Constants
 import Cherab.Gen.PassiveFlags
 import Mathlib.Tactic.Ring
+import Mathlib.Tactic.Tauto
 import Mathlib.Tactic.Linarith
 import Mathlib.Tactic.FieldSimp
 import Mathlib.Tactic.Positivity
 import Mathlib.Tactic.NormNum.OfScientific
 import Mathlib.Algebra.Order.Field.Basic
+import Mathlib.Algebra.Order.Ring.Rat
+import Mathlib.Algebra.BigOperators.Group.List.Basic
+import Mathlib.Analysis.Real.Sqrt
+import Mathlib.Analysis.Complex.Exponential
+
+
+/-!
+# C03 — passive emission models radiate exactly their documented totals
+
+Property theorems about `Model/PassiveEmission.lean` (the code as it is) against `Model/PassiveSpec.lean` (the documented
+expressions), over an arbitrary ordered field.  `π`, `sqrt`, `exp`, `log`, `log10`, the provider's rate functions, the
+Gaunt factor and the integrator are parameters; hypotheses on them are named (`SqrtSpec`, `Additive`, positivity of
+`exp`/`sqrt`) and shown satisfiable over ℝ at the end of the file.
+
+Clause of the property sentence                         theorem(s)
+  excitation / recombination = (1/4π) n_e n_i PEC        `excitation_eq_spec`, `recombination_eq_spec`, `line_missing_species`
+  thermal CX = (1/4π) n_rec Σ_d n_d PEC_d                `thermalcx_eq_spec` (with donor guards), `thermalcx_eq_spec_partial` (source as
+                                                         it is), `thermalcx_unguarded_negative_witness`, `cx_donor_filter`
+  total radiated power, spread uniformly                 `trp_eq_spec_partial`, `trp_unlisted_isotope_witness`, `trp_integral`
+  bremsstrahlung = bin average of Hutchinson             `brems_eq_spec`, `brems_const_closed_form`, `exp_factor_closed_form`,
+                                                         `brems_bins_edges`, `brems_bin_is_average`, `brems_bins_total`,
+                                                         `gauss_quad_const_exact`; Gaunt branch logic `gaunt_branches`, `gaunt_branch_conditions`
+  zero when a density / temperature is ≤ 0               `line_zero_guards`, `thermalcx_zero_guards`, `thermalcx_donor_zero_guards`,
+                                                         `trp_zero_guards`, `brems_zero_guards`
+  never negative for non-negative coefficients           `line_nonneg`, `thermalcx_nonneg` / `_partial`, `trp_nonneg`, `brems_nonneg`
+  linear in each density                                 `line_linear_in_density`, `line_additive_in_density`, `thermalcx_linear_in_receiver`,
+                                                         `thermalcx_linear_in_donor`, `thermalcx_additive_in_donors`, `trp_linear_in_density`,
+                                                         `trp_three_terms`, `brems_linear_in_density`, `brems_linear_in_ne`
+  constants                                              `constants_match_codata`, `constants_translation_consistent`, `exp_factor_exact`
+-/
 
 namespace Cherab.Props.C03
 set_option linter.unusedSectionVars false
+set_option linter.unusedVariables false
 open Cherab.Passive
+open Cherab
 
 variable {α : Type} [Field α] [LinearOrder α] [IsStrictOrderedRing α]
 
+/-! ## helper lemmas (lists, sums) -/
+
+theorem foldl_add_sum {β : Type} (f : β → α) (l : List β) (a : α) :
+    l.foldl (fun acc s => acc + f s) a = a + (l.map f).sum := by
+  induction l generalizing a with
+  | nil => simp
+  | cons x t ih => simp [List.foldl_cons, ih, add_assoc]
+
+theorem sum_filter_ite {β : Type} (p : β → Bool) (f : β → α) (l : List β) :
+    ((l.filter p).map f).sum = (l.map fun s => if p s then f s else 0).sum := by
+  induction l with
+  | nil => simp
+  | cons x t ih =>
+    by_cases h : p x <;> simp [h, ih]
+
+theorem sum_map_zero {β : Type} (f : β → α) (l : List β) (h : ∀ s ∈ l, f s = 0) : (l.map f).sum = 0 := by
+  induction l with
+  | nil => simp
+  | cons x t ih =>
+    simp only [List.map_cons, List.sum_cons]
+    rw [h x (by simp), ih (fun s hs => h s (by simp [hs]))]; simp
+
+theorem sum_map_congr {β : Type} (f g : β → α) (l : List β) (h : ∀ s ∈ l, f s = g s) :
+    (l.map f).sum = (l.map g).sum := by
+  induction l with
+  | nil => simp
+  | cons x t ih =>
+    simp only [List.map_cons, List.sum_cons]
+    rw [h x (by simp), ih (fun s hs => h s (by simp [hs]))]
+
+theorem sum_map_mul_left {β : Type} (k : α) (f : β → α) (l : List β) :
+    (l.map fun s => k * f s).sum = k * (l.map f).sum := by
+  induction l with
+  | nil => simp
+  | cons x t ih => simp [ih, mul_add]
+
+theorem sum_map_nonneg {β : Type} (f : β → α) (l : List β) (h : ∀ s ∈ l, 0 ≤ f s) : 0 ≤ (l.map f).sum := by
+  induction l with
+  | nil => simp
+  | cons x t ih =>
+    simp only [List.map_cons, List.sum_cons]
+    exact add_nonneg (h x (by simp)) (ih (fun s hs => h s (by simp [hs])))
+
+/-- the species keys of a composition are unique (`Composition._species` is a dict keyed by (element, charge)) -/
+def KeysNodup (comp : List (Sp α)) : Prop := (comp.map fun s => (s.elem, s.charge)).Nodup
+
+theorem isKey_iff (e c : Nat) (s : Sp α) : isKey e c s = true ↔ (s.elem = e ∧ s.charge = c) := by
+  simp [isKey]
+
+/-- with unique keys, a sum over the composition restricted to one key is the value at the species found by `get` -/
+theorem sumOver_key (comp : List (Sp α)) (hk : KeysNodup comp) (e c : Nat) (g : Sp α → α) :
+    PassiveSpec.sumOver comp (fun s => if s.elem = e ∧ s.charge = c then g s else 0)
+      = (getSp comp e c).elim 0 g := by
+  unfold PassiveSpec.sumOver getSp
+  induction comp with
+  | nil => simp
+  | cons x t ih =>
+    have hk' : KeysNodup t := by
+      unfold KeysNodup at hk ⊢; simp only [List.map_cons, List.nodup_cons] at hk; exact hk.2
+    by_cases hx : x.elem = e ∧ x.charge = c
+    · have hkey : isKey e c x = true := (isKey_iff e c x).2 hx
+      have hrest : (t.map fun s => if s.elem = e ∧ s.charge = c then g s else 0).sum = 0 := by
+        apply sum_map_zero
+        intro s hs
+        have : ¬(s.elem = e ∧ s.charge = c) := by
+          intro hsk
+          unfold KeysNodup at hk; simp only [List.map_cons, List.nodup_cons] at hk
+          apply hk.1
+          simp only [List.mem_map]
+          exact ⟨s, hs, by rw [hsk.1, hsk.2, hx.1, hx.2]⟩
+        simp [this]
+      simp [hkey, hx, hrest]
+    · have hkey : isKey e c x = false := by
+        cases h : isKey e c x
+        · rfl
+        · exact absurd ((isKey_iff e c x).1 h) hx
+      simp only [List.map_cons, List.sum_cons, List.find?_cons, hkey, if_neg hx, zero_add]
+      exact ih hk'
+
+theorem getSp_some_mem (comp : List (Sp α)) (e c : Nat) (s : Sp α) (h : getSp comp e c = some s) :
+    s ∈ comp ∧ s.elem = e ∧ s.charge = c := by
+  unfold getSp at h
+  exact ⟨List.mem_of_find?_eq_some h, (isKey_iff e c s).1 (List.find?_some h)⟩
+
+theorem getSp_none_iff (comp : List (Sp α)) (e c : Nat) :
+    getSp comp e c = none ↔ ∀ s ∈ comp, ¬(s.elem = e ∧ s.charge = c) := by
+  unfold getSp
+  rw [List.find?_eq_none]
+  constructor
+  · intro h s hs hk; exact h s hs ((isKey_iff e c s).2 hk)
+  · intro h s hs hk; exact h s hs ((isKey_iff e c s).1 hk)
+
+/-! ## ExcitationLine / RecombinationLine -/
+
+/-- value of the guarded product in closed form -/
+theorem lineCall_val (pi : α) (rate : α → α → α) (ne te ni : α) :
+    emitted (lineCall pi rate ne te ni)
+      = if 0 < ne ∧ 0 < te ∧ 0 < ni then 1 / (4 * pi) * ne * ni * rate ne te else 0 := by
+  unfold lineCall emitted recip4pi
+  have h4 : (4.0 : α) = 4 := by norm_num
+  rw [h4]
+  by_cases h1 : ne ≤ 0
+  · simp [h1, not_lt.mpr h1]
+  · by_cases h2 : te ≤ 0
+    · simp [h1, h2, not_lt.mpr h2]
+    · by_cases h3 : ni ≤ 0
+      · simp [h1, h2, h3, not_lt.mpr h3]
+      · simp only [h1, h2, h3, if_false, Option.getD_some, not_le.mp h1, not_le.mp h2, not_le.mp h3, and_self, if_true]
+        ring
+
+theorem line_spec_val (pi : α) (rate : α → α → α) (comp : List (Sp α)) (hk : KeysNodup comp) (ne te : α) (e c : Nat) :
+    PassiveSpec.line pi rate comp ne te e c
+      = (getSp comp e c).elim 0 (fun s => emitted (lineCall pi rate ne te s.dens)) := by
+  unfold PassiveSpec.line
+  have h4 : (4.0 : α) = 4 := by norm_num
+  rw [h4]
+  by_cases hne : 0 < ne ∧ 0 < te
+  · rw [if_pos hne]
+    have : (fun s : Sp α => if s.elem = e ∧ s.charge = c ∧ 0 < s.dens then 1 / (4 * pi) * ne * s.dens * rate ne te else 0)
+        = fun s => if s.elem = e ∧ s.charge = c then (emitted (lineCall pi rate ne te s.dens)) else 0 := by
+      funext s
+      rw [lineCall_val]
+      by_cases h1 : s.elem = e <;> by_cases h2 : s.charge = c <;> by_cases h3 : 0 < s.dens <;> simp [h1, h2, h3, hne.1, hne.2]
+    rw [this, sumOver_key comp hk]
+  · rw [if_neg hne]
+    cases h : getSp comp e c with
+    | none => rfl
+    | some s =>
+      simp only [Option.elim_some, lineCall_val]
+      rw [if_neg]
+      intro hh; exact hne ⟨hh.1, hh.2.1⟩
+
+/-- **excitation**: whenever the model can be evaluated (target species present) the emission equals the documented
+`(1/4π) n_e n_i PEC_exc(n_e, T_e)` with `n_i` the density of `(line.element, line.charge)`, for every composition -/
+theorem excitation_eq_spec (pi : α) (prov : Nat → Nat → α → α → α) (comp : List (Sp α)) (hk : KeysNodup comp)
+    (ne te : α) (le lc : Nat) (r : Option α) (h : excitationLine pi prov comp ne te le lc = some r) :
+    emitted r = PassiveSpec.excitation pi prov comp ne te le lc := by
+  unfold PassiveSpec.excitation
+  rw [line_spec_val pi _ comp hk]
+  unfold excitationLine at h
+  cases hg : getSp comp le lc with
+  | none => rw [hg] at h; cases h
+  | some s => rw [hg] at h; cases h; rfl
+
+/-- **recombination**: the density is that of the *next* charge state, the coefficient that of the line's own ion -/
+theorem recombination_eq_spec (pi : α) (prov : Nat → Nat → α → α → α) (comp : List (Sp α)) (hk : KeysNodup comp)
+    (ne te : α) (le lc : Nat) (r : Option α) (h : recombinationLine pi prov comp ne te le lc = some r) :
+    emitted r = PassiveSpec.recombination pi prov comp ne te le lc := by
+  unfold PassiveSpec.recombination
+  rw [line_spec_val pi _ comp hk]
+  unfold recombinationLine at h
+  cases hg : getSp comp le (lc + 1) with
+  | none => rw [hg] at h; cases h
+  | some s => rw [hg] at h; cases h; rfl
+
+/-- the models raise exactly when the species they need is not in the composition -/
+theorem line_missing_species (pi : α) (prov : Nat → Nat → α → α → α) (comp : List (Sp α)) (ne te : α) (le lc : Nat) :
+    (excitationLine pi prov comp ne te le lc = none ↔ ∀ s ∈ comp, ¬(s.elem = le ∧ s.charge = lc)) ∧
+    (recombinationLine pi prov comp ne te le lc = none ↔ ∀ s ∈ comp, ¬(s.elem = le ∧ s.charge = lc + 1)) := by
+  constructor
+  · rw [← getSp_none_iff]; unfold excitationLine; cases getSp comp le lc <;> simp
+  · rw [← getSp_none_iff]; unfold recombinationLine; cases getSp comp le (lc + 1) <;> simp
+
+/-- zero whenever `n_e`, `T_e` or the target density is non-positive (nothing is handed to the line shape) -/
 theorem line_zero_guards (pi : α) (rate : α → α → α) (ne te ni : α) (h : ne ≤ 0 ∨ te ≤ 0 ∨ ni ≤ 0) :
-    emitted (lineCall pi rate ne te ni) = 0 := by
-  unfold lineCall emitted
-  rcases h with h | h | h <;> split_ifs <;> first | rfl | exact absurd h ‹_›
+    lineCall pi rate ne te ni = none ∧ emitted (lineCall pi rate ne te ni) = 0 := by
+  have : lineCall pi rate ne te ni = none := by
+    unfold lineCall
+    rcases h with h | h | h <;> simp [h]
+  rw [this]; exact ⟨rfl, rfl⟩
+
+/-- never negative for a non-negative coefficient -/
+theorem line_nonneg (pi : α) (hpi : 0 < pi) (rate : α → α → α) (ne te ni : α) (hr : 0 ≤ rate ne te) :
+    0 ≤ emitted (lineCall pi rate ne te ni) := by
+  rw [lineCall_val]
+  split_ifs with h
+  · obtain ⟨h1, h2, h3⟩ := h
+    have : 0 < 1 / (4 * pi) := by positivity
+    positivity
+  · exact le_refl _
+
+/-- linear in the target density: scaling `n_i` by `k > 0` scales the emission by `k` -/
+theorem line_linear_in_density (pi : α) (rate : α → α → α) (ne te ni k : α) (hk : 0 < k) :
+    emitted (lineCall pi rate ne te (k * ni)) = k * emitted (lineCall pi rate ne te ni) := by
+  rw [lineCall_val, lineCall_val]
+  have : 0 < k * ni ↔ 0 < ni := by
+    constructor
+    · intro h; by_contra hc; push Not at hc; nlinarith
+    · intro h; positivity
+  by_cases h : 0 < ne ∧ 0 < te ∧ 0 < ni
+  · rw [if_pos h, if_pos ⟨h.1, h.2.1, this.2 h.2.2⟩]; ring
+  · rw [if_neg h, if_neg (fun hh => h ⟨hh.1, hh.2.1, this.1 hh.2.2⟩)]; ring
+
+/-- … and, where it emits, additive in it -/
+theorem line_additive_in_density (pi : α) (rate : α → α → α) (ne te n1 n2 : α) (h1 : 0 < n1) (h2 : 0 < n2) :
+    emitted (lineCall pi rate ne te (n1 + n2))
+      = emitted (lineCall pi rate ne te n1) + emitted (lineCall pi rate ne te n2) := by
+  simp only [lineCall_val]
+  have h12 : 0 < n1 + n2 := by positivity
+  by_cases h : 0 < ne ∧ 0 < te
+  · simp only [h.1, h.2, h1, h2, h12, and_self, if_true]; ring
+  · have : ∀ n : α, ¬(0 < ne ∧ 0 < te ∧ 0 < n) := fun n hh => h ⟨hh.1, hh.2.1⟩
+    simp [this]
+
+example : emitted (lineCall (α := ℚ) 3 (fun ne te => ne + te) 2 5 7) = 1 / 12 * 2 * 7 * 7 := by
+  rw [lineCall_val]; norm_num
+
+/-! ## ThermalCXLine -/
+
+/-- contribution of one donor to the weighted rate under the guard switches -/
+def cxTerm (gd gt : Bool) (prov : Nat → Nat → α → α → α → α) (ne te : α) (s : Sp α) : α :=
+  if (gd && decide (s.dens ≤ 0)) || (gt && decide (s.temp ≤ 0)) then 0 else s.dens * prov s.elem s.charge ne te s.temp
+
+theorem cxWeighted_sum (gd gt : Bool) (prov : Nat → Nat → α → α → α → α) (ne te : α) (donors : List (Sp α)) :
+    cxWeighted gd gt prov ne te donors = (donors.map (cxTerm gd gt prov ne te)).sum := by
+  unfold cxWeighted
+  have : (fun (acc : α) (s : Sp α) =>
+        if (gd && decide (s.dens ≤ 0)) || (gt && decide (s.temp ≤ 0)) then acc
+        else acc + s.dens * prov s.elem s.charge ne te s.temp)
+      = fun acc s => acc + cxTerm gd gt prov ne te s := by
+    funext acc s; unfold cxTerm; split_ifs <;> simp
+  rw [this, foldl_add_sum]; simp
+
+theorem cxEligible_iff (e c : Nat) (s : Sp α) : cxEligible e c s = true ↔ PassiveSpec.donorOf e c s := by
+  unfold cxEligible PassiveSpec.donorOf
+  simp only [isKey, Bool.and_eq_true, Bool.not_eq_eq_eq_not, Bool.not_true, beq_iff_eq, decide_eq_true_eq,
+    Bool.and_eq_false_imp]
+  by_cases h1 : s.elem = e <;> by_cases h2 : s.charge = c <;> simp [h1, h2]
+
+theorem thermalCXCall_val (gd gt : Bool) (pi : α) (prov : Nat → Nat → α → α → α → α) (ne te nrec : α)
+    (donors : List (Sp α)) :
+    emitted (thermalCXCall gd gt pi prov ne te nrec donors)
+      = if 0 < ne ∧ 0 < te ∧ 0 < nrec then 1 / (4 * pi) * nrec * (donors.map (cxTerm gd gt prov ne te)).sum else 0 := by
+  unfold thermalCXCall emitted recip4pi
+  have h4 : (4.0 : α) = 4 := by norm_num
+  rw [h4, cxWeighted_sum]
+  by_cases h1 : ne ≤ 0
+  · simp [h1, not_lt.mpr h1]
+  · by_cases h2 : te ≤ 0
+    · simp [h1, h2, not_lt.mpr h2]
+    · by_cases h3 : nrec ≤ 0
+      · simp [h1, h2, h3, not_lt.mpr h3]
+      · simp only [h1, h2, h3, if_false, Option.getD_some, not_le.mp h1, not_le.mp h2, not_le.mp h3, and_self, if_true]
+        ring
+
+/-- the donor sum of the model equals the documented one as soon as every eligible donor with a non-positive
+density / temperature is skipped by a guard (or there is none) -/
+theorem cx_donor_sum (gd gt : Bool) (prov : Nat → Nat → α → α → α → α) (comp : List (Sp α)) (ne te : α) (e c : Nat)
+    (hg : ∀ d ∈ comp, PassiveSpec.donorOf e c d → (gd = true ∨ 0 < d.dens) ∧ (gt = true ∨ 0 < d.temp)) :
+    ((cxDonors comp e c).map (cxTerm gd gt prov ne te)).sum = PassiveSpec.donorSum prov comp ne te e c := by
+  unfold cxDonors PassiveSpec.donorSum PassiveSpec.sumOver
+  rw [sum_filter_ite]
+  apply sum_map_congr
+  intro d hd
+  by_cases hel : PassiveSpec.donorOf e c d
+  · have hb : cxEligible e c d = true := (cxEligible_iff e c d).2 hel
+    obtain ⟨h1, h2⟩ := hg d hd hel
+    rw [if_pos hb]
+    unfold cxTerm
+    by_cases hd0 : 0 < d.dens <;> by_cases ht0 : 0 < d.temp
+    · simp [hel, hd0, ht0, not_le.mpr hd0, not_le.mpr ht0]
+    · have htl : d.temp ≤ 0 := not_lt.mp ht0
+      rcases h2 with h2 | h2
+      · simp [hel, hd0, ht0, htl, h2]
+      · exact absurd h2 ht0
+    · have hdl : d.dens ≤ 0 := not_lt.mp hd0
+      rcases h1 with h1 | h1
+      · simp [hel, hd0, hdl, h1]
+      · exact absurd h1 hd0
+    · have hdl : d.dens ≤ 0 := not_lt.mp hd0
+      rcases h1 with h1 | h1
+      · simp [hel, hd0, hdl, h1]
+      · exact absurd h1 hd0
+  · have hb : cxEligible e c d = false := by
+      cases h : cxEligible e c d
+      · rfl
+      · exact absurd ((cxEligible_iff e c d).1 h) hel
+    simp [hb, hel]
+
+theorem thermalcx_eq_spec_of_guards (gd gt : Bool) (pi : α) (prov : Nat → Nat → α → α → α → α) (comp : List (Sp α))
+    (hk : KeysNodup comp) (ne te : α) (le lc : Nat) (r : Option α)
+    (hg : ∀ d ∈ comp, PassiveSpec.donorOf le (lc + 1) d → (gd = true ∨ 0 < d.dens) ∧ (gt = true ∨ 0 < d.temp))
+    (h : thermalCXLine gd gt pi prov comp ne te le lc = some r) :
+    emitted r = PassiveSpec.thermalCX pi prov comp ne te le lc := by
+  unfold PassiveSpec.thermalCX
+  have h4 : (4.0 : α) = 4 := by norm_num
+  rw [h4]
+  unfold thermalCXLine at h
+  cases hgs : getSp comp le (lc + 1) with
+  | none => rw [hgs] at h; cases h
+  | some s =>
+    rw [hgs] at h; cases h
+    rw [thermalCXCall_val, cx_donor_sum gd gt prov comp ne te le (lc + 1) hg]
+    by_cases hne : 0 < ne ∧ 0 < te
+    · rw [if_pos hne]
+      have : (fun r : Sp α => if r.elem = le ∧ r.charge = lc + 1 ∧ 0 < r.dens then
+            1 / (4 * pi) * r.dens * PassiveSpec.donorSum prov comp ne te le (lc + 1) else 0)
+          = fun r => if r.elem = le ∧ r.charge = lc + 1 then
+              (if 0 < r.dens then 1 / (4 * pi) * r.dens * PassiveSpec.donorSum prov comp ne te le (lc + 1) else 0) else 0 := by
+        funext r
+        by_cases h1 : r.elem = le <;> by_cases h2 : r.charge = lc + 1 <;> by_cases h3 : 0 < r.dens <;> simp [h1, h2, h3]
+      rw [this, sumOver_key comp hk, hgs]
+      simp only [Option.elim_some]
+      by_cases h3 : 0 < s.dens
+      · simp [hne.1, hne.2, h3]
+      · simp [h3]
+    · rw [if_neg hne, if_neg]
+      intro hh; exact hne ⟨hh.1, hh.2.1⟩
+
+/-- **thermal CX, donor guards present** (`Gen.PassiveFlags` = true/true, i.e. after the proposed fix):
+model = documented expression for every composition and all densities / temperatures -/
+theorem thermalcx_eq_spec (pi : α) (prov : Nat → Nat → α → α → α → α) (comp : List (Sp α))
+    (hk : KeysNodup comp) (ne te : α) (le lc : Nat) (r : Option α)
+    (h : thermalCXLine true true pi prov comp ne te le lc = some r) :
+    emitted r = PassiveSpec.thermalCX pi prov comp ne te le lc :=
+  thermalcx_eq_spec_of_guards true true pi prov comp hk ne te le lc r
+    (fun d _ _ => ⟨Or.inl rfl, Or.inl rfl⟩) h
+
+/-- **thermal CX, code as it is** (no donor guards): equal to the documented expression only on plasmas whose
+eligible donors have positive density and temperature.  Partial: the property also quantifies over
+zero / negative donor densities and temperatures — see `thermalcx_unguarded_negative_witness`. -/
+theorem thermalcx_eq_spec_partial (pi : α) (prov : Nat → Nat → α → α → α → α) (comp : List (Sp α))
+    (hk : KeysNodup comp) (ne te : α) (le lc : Nat) (r : Option α)
+    (hpos : ∀ d ∈ comp, PassiveSpec.donorOf le (lc + 1) d → 0 < d.dens ∧ 0 < d.temp)
+    (h : thermalCXLine false false pi prov comp ne te le lc = some r) :
+    emitted r = PassiveSpec.thermalCX pi prov comp ne te le lc :=
+  thermalcx_eq_spec_of_guards false false pi prov comp hk ne te le lc r
+    (fun d hd hel => ⟨Or.inr (hpos d hd hel).1, Or.inr (hpos d hd hel).2⟩) h
+
+/-- **thermal CX, current source**: the guard switches are read from `thermal_cx.pyx` by the translator on every run
+(`Gen/PassiveFlags.lean`; both `false` on the tree this was written against).  The hypothesis on the donors is exactly
+what the missing guards leave uncovered and becomes vacuous once the guards are in the source. -/
+theorem thermalcx_eq_spec_current_source (pi : α) (prov : Nat → Nat → α → α → α → α) (comp : List (Sp α))
+    (hk : KeysNodup comp) (ne te : α) (le lc : Nat) (r : Option α)
+    (hg : ∀ d ∈ comp, PassiveSpec.donorOf le (lc + 1) d →
+      (Gen.PassiveFlags.thermalCXDonorDensityGuard = true ∨ 0 < d.dens) ∧
+      (Gen.PassiveFlags.thermalCXDonorTemperatureGuard = true ∨ 0 < d.temp))
+    (h : thermalCXLine Gen.PassiveFlags.thermalCXDonorDensityGuard Gen.PassiveFlags.thermalCXDonorTemperatureGuard
+      pi prov comp ne te le lc = some r) :
+    emitted r = PassiveSpec.thermalCX pi prov comp ne te le lc :=
+  thermalcx_eq_spec_of_guards _ _ pi prov comp hk ne te le lc r hg h
+
+/-- donors are every species except the receiver and bare nuclei -/
+theorem cx_donor_filter (comp : List (Sp α)) (e c : Nat) (d : Sp α) :
+    d ∈ cxDonors comp e c ↔ d ∈ comp ∧ ¬(d.elem = e ∧ d.charge = c) ∧ d.charge < d.z := by
+  unfold cxDonors
+  rw [List.mem_filter, cxEligible_iff]; rfl
+
+theorem thermalcx_zero_guards (gd gt : Bool) (pi : α) (prov : Nat → Nat → α → α → α → α) (ne te nrec : α)
+    (donors : List (Sp α)) (h : ne ≤ 0 ∨ te ≤ 0 ∨ nrec ≤ 0) :
+    thermalCXCall gd gt pi prov ne te nrec donors = none := by
+  unfold thermalCXCall
+  rcases h with h | h | h <;> simp [h]
+
+/-- with the donor guards, a donor of non-positive density or temperature contributes nothing -/
+theorem thermalcx_donor_zero_guards (prov : Nat → Nat → α → α → α → α) (ne te : α) (d : Sp α)
+    (h : d.dens ≤ 0 ∨ d.temp ≤ 0) : cxTerm true true prov ne te d = 0 := by
+  unfold cxTerm; rcases h with h | h <;> simp [h]
+
+/-- never negative for non-negative coefficients — with the donor guards -/
+theorem thermalcx_nonneg (pi : α) (hpi : 0 < pi) (prov : Nat → Nat → α → α → α → α) (ne te nrec : α)
+    (donors : List (Sp α)) (hr : ∀ d ∈ donors, 0 ≤ prov d.elem d.charge ne te d.temp) :
+    0 ≤ emitted (thermalCXCall true true pi prov ne te nrec donors) := by
+  rw [thermalCXCall_val]
+  split_ifs with h
+  · have h0 : 0 ≤ (donors.map (cxTerm true true prov ne te)).sum := by
+      apply sum_map_nonneg
+      intro d hd
+      unfold cxTerm
+      split_ifs with hc
+      · exact le_refl _
+      · simp only [Bool.true_and, Bool.or_eq_true, decide_eq_true_eq, not_or, not_le] at hc
+        exact mul_nonneg hc.1.le (hr d hd)
+    have : 0 < 1 / (4 * pi) := by positivity
+    have := h.2.2
+    positivity
+  · exact le_refl _
+
+/-- as the code is: non-negative only if no donor has a negative density (partial) -/
+theorem thermalcx_nonneg_partial (pi : α) (hpi : 0 < pi) (prov : Nat → Nat → α → α → α → α) (ne te nrec : α)
+    (donors : List (Sp α)) (hr : ∀ d ∈ donors, 0 ≤ prov d.elem d.charge ne te d.temp)
+    (hd : ∀ d ∈ donors, 0 ≤ d.dens) :
+    0 ≤ emitted (thermalCXCall false false pi prov ne te nrec donors) := by
+  rw [thermalCXCall_val]
+  split_ifs with h
+  · have h0 : 0 ≤ (donors.map (cxTerm false false prov ne te)).sum := by
+      apply sum_map_nonneg
+      intro d hdm
+      unfold cxTerm
+      simp only [Bool.false_and, Bool.or_self, Bool.false_eq_true, if_false]
+      exact mul_nonneg (hd d hdm) (hr d hdm)
+    have : 0 < 1 / (4 * pi) := by positivity
+    have := h.2.2
+    positivity
+  · exact le_refl _
+
+/-- **witness**: the unguarded model (current source) emits a *negative* radiance for the composition
+{receiver C6+ 2·10¹⁷, donor D0 −10¹⁶ at 3 eV}, n_e = 10¹⁹, T_e = 100 with a positive coefficient, whereas the
+documented emission is 0.  Replayed on the real code by harness/props/c03.py (`run_cx_edges`). -/
+theorem thermalcx_unguarded_negative_witness :
+    let comp : List (Sp ℚ) := [⟨9, 6, 6, 200000000000000000, 60⟩, ⟨2, 1, 0, -10000000000000000, 3⟩]
+    let prov : Nat → Nat → ℚ → ℚ → ℚ → ℚ := fun _ _ _ _ _ => 1
+    (∃ v, thermalCXLine false false (3 : ℚ) prov comp 10000000000000000000 100 9 5 = some (some v) ∧ v < 0) ∧
+    PassiveSpec.thermalCX (3 : ℚ) prov comp 10000000000000000000 100 9 5 = 0 ∧
+    thermalCXLine true true (3 : ℚ) prov comp 10000000000000000000 100 9 5 = some (some 0) := by
+  refine ⟨⟨_, rfl, ?_⟩, ?_, ?_⟩
+  · norm_num [recip4pi, cxWeighted, cxDonors, cxEligible, isKey]
+  · norm_num [PassiveSpec.thermalCX, PassiveSpec.sumOver, PassiveSpec.donorSum, PassiveSpec.donorOf]
+  · norm_num [thermalCXLine, getSp, isKey, thermalCXCall, recip4pi, cxWeighted, cxDonors, cxEligible]
+
+/-- linear in the receiver density -/
+theorem thermalcx_linear_in_receiver (gd gt : Bool) (pi : α) (prov : Nat → Nat → α → α → α → α) (ne te nrec k : α)
+    (hk : 0 < k) (donors : List (Sp α)) :
+    emitted (thermalCXCall gd gt pi prov ne te (k * nrec) donors)
+      = k * emitted (thermalCXCall gd gt pi prov ne te nrec donors) := by
+  rw [thermalCXCall_val, thermalCXCall_val]
+  have : 0 < k * nrec ↔ 0 < nrec := by
+    constructor
+    · intro h; by_contra hc; push Not at hc; nlinarith
+    · intro h; positivity
+  by_cases h : 0 < ne ∧ 0 < te ∧ 0 < nrec
+  · rw [if_pos h, if_pos ⟨h.1, h.2.1, this.2 h.2.2⟩]; ring
+  · rw [if_neg h, if_neg (fun hh => h ⟨hh.1, hh.2.1, this.1 hh.2.2⟩)]; ring
+
+/-- scale one donor's density -/
+def scaleDens (k : α) (s : Sp α) : Sp α := { s with dens := k * s.dens }
+
+/-- linear in each donor density: the contribution of a donor scales with its density (`k > 0`) … -/
+theorem thermalcx_linear_in_donor (gd gt : Bool) (prov : Nat → Nat → α → α → α → α) (ne te k : α) (hk : 0 < k)
+    (d : Sp α) : cxTerm gd gt prov ne te (scaleDens k d) = k * cxTerm gd gt prov ne te d := by
+  unfold cxTerm scaleDens
+  have : k * d.dens ≤ 0 ↔ d.dens ≤ 0 := by
+    constructor
+    · intro h; by_contra hc; push Not at hc; nlinarith
+    · intro h; nlinarith
+  simp only [this]
+  split_ifs <;> ring
+
+/-- … and the weighted rate is the sum of the donors' contributions (each donor enters additively) -/
+theorem thermalcx_additive_in_donors (gd gt : Bool) (prov : Nat → Nat → α → α → α → α) (ne te : α) (d : Sp α)
+    (ds : List (Sp α)) :
+    cxWeighted gd gt prov ne te (d :: ds) = cxTerm gd gt prov ne te d + cxWeighted gd gt prov ne te ds := by
+  simp [cxWeighted_sum]
+
+example : emitted (thermalCXCall (α := ℚ) true true 3 (fun _ _ _ _ td => td) 1 1 2 [⟨0, 1, 0, 5, 7⟩, ⟨1, 1, 0, -5, 7⟩])
+    = 1 / 12 * 2 * 35 := by
+  rw [thermalCXCall_val]; norm_num [cxTerm]
+
+/-! ## TotalRadiatedPower -/
+
+theorem trpTerm_val (rate : Option (α → α → α)) (ne te : α) (g : Bool) (a b acc : α) :
+    trpTerm rate ne te g a b acc = acc + (if g = true then a * b * PassiveSpec.coeff rate ne te else 0) := by
+  unfold trpTerm PassiveSpec.coeff
+  cases rate with
+  | none => simp
+  | some r => by_cases hg : g = true <;> simp [hg] ; ring
+
+/-- the accumulated power density is the documented three-term sum -/
+theorem trpPower_eq_spec (plt prb prc : Option (α → α → α)) (ne te ni niUp nhyd : α) :
+    trpPower plt prb prc ne te ni niUp nhyd = PassiveSpec.trpPowerDensity plt prb prc ne te ni niUp nhyd := by
+  unfold trpPower PassiveSpec.trpPowerDensity
+  simp only [trpTerm_val, zero_add, gt_iff_lt, decide_eq_true_eq, Bool.and_eq_true]
+  congr 1
+  · congr 1
+    · split_ifs <;> ring
+    · split_ifs <;> ring
+  · split_ifs <;> ring
+
+theorem trpNhyd_sum (hs : List (Sp α)) : trpNhyd hs = (hs.map fun s => s.dens).sum := by
+  unfold trpNhyd; rw [foldl_add_sum]; simp
+
+/-- `n_hyd` of the model: the neutrals of the listed elements -/
+theorem trpNhyd_listed (comp : List (Sp α)) (hk : KeysNodup comp) (hyd : List Nat) (hn : hyd.Nodup) :
+    trpNhyd (trpHydSpecies comp hyd)
+      = PassiveSpec.sumOver comp (fun s => if s.charge = 0 ∧ s.elem ∈ hyd then s.dens else 0) := by
+  rw [trpNhyd_sum]
+  unfold trpHydSpecies
+  induction hyd with
+  | nil => simp [PassiveSpec.sumOver]
+  | cons h t ih =>
+    have hn' : t.Nodup := (List.nodup_cons.1 hn).2
+    have hnot : h ∉ t := (List.nodup_cons.1 hn).1
+    have hsplit : PassiveSpec.sumOver comp (fun s => if s.charge = 0 ∧ s.elem ∈ h :: t then s.dens else 0)
+        = PassiveSpec.sumOver comp (fun s => if s.elem = h ∧ s.charge = 0 then s.dens else 0)
+          + PassiveSpec.sumOver comp (fun s => if s.charge = 0 ∧ s.elem ∈ t then s.dens else 0) := by
+      unfold PassiveSpec.sumOver
+      rw [← List.sum_map_add]
+      apply sum_map_congr
+      intro s _
+      by_cases h0 : s.charge = 0 <;> by_cases h1 : s.elem = h <;> by_cases h2 : s.elem ∈ t
+      · exact absurd (h1 ▸ h2) hnot
+      · simp [h0, h1, hnot]
+      · simp [h0, h1, h2]
+      · simp [h0, h1, h2]
+      · simp [h0]
+      · simp [h0]
+      · simp [h0]
+      · simp [h0]
+    rw [hsplit, sumOver_key comp hk, ← ih hn']
+    cases hg : getSp comp h 0 with
+    | none => simp [hg]
+    | some s => simp [hg]
+
+/-- every hydrogen-isotope neutral of the composition is one of the elements the code looks up, and those are
+hydrogen isotopes -/
+def HydNeutralsListed (comp : List (Sp α)) (hyd : List Nat) : Prop :=
+  ∀ s ∈ comp, s.charge = 0 → (s.elem ∈ hyd ↔ s.z = 1)
+
+theorem trpNhyd_eq_spec (comp : List (Sp α)) (hk : KeysNodup comp) (hyd : List Nat) (hn : hyd.Nodup)
+    (hl : HydNeutralsListed comp hyd) : trpNhyd (trpHydSpecies comp hyd) = PassiveSpec.nHyd comp := by
+  rw [trpNhyd_listed comp hk hyd hn]
+  unfold PassiveSpec.nHyd PassiveSpec.sumOver
+  apply sum_map_congr
+  intro s hs
+  by_cases h0 : s.charge = 0
+  · have := hl s hs h0
+    by_cases h1 : s.z = 1
+    · simp [h0, h1, this.2 h1]
+    · have : s.elem ∉ hyd := fun hm => h1 (this.1 hm)
+      simp [h0, h1, this]
+  · simp [h0]
+
+theorem trpCall_val (pi : α) (plt prb prc : Option (α → α → α)) (ne te ni niUp nhyd mn mx : α) :
+    emitted (trpCall pi plt prb prc ne te ni niUp nhyd mn mx)
+      = if 0 < ne ∧ 0 < te then
+          1 / (4 * pi * (mx - mn)) * PassiveSpec.trpPowerDensity plt prb prc ne te ni niUp nhyd
+        else 0 := by
+  unfold trpCall emitted recip4pi
+  have h4 : (4.0 : α) = 4 := by norm_num
+  rw [h4, trpPower_eq_spec]
+  by_cases h1 : ne ≤ 0
+  · simp [h1, not_lt.mpr h1]
+  · by_cases h2 : te ≤ 0
+    · simp [h1, h2, not_lt.mpr h2]
+    · simp only [h1, h2, if_false, Option.getD_some, not_le.mp h1, not_le.mp h2, and_self, if_true]
+      have hinv : (4 * pi * (mx - mn))⁻¹ = (4 * pi)⁻¹ * (mx - mn)⁻¹ := mul_inv _ _
+      simp only [div_eq_mul_inv, hinv]; ring
+
+theorem densOf_val (comp : List (Sp α)) (hk : KeysNodup comp) (e c : Nat) :
+    PassiveSpec.densOf comp e c = (getSp comp e c).elim 0 (fun s => s.dens) := by
+  unfold PassiveSpec.densOf; exact sumOver_key comp hk e c _
+
+/-- **total radiated power** — model = documented expression for every composition in which the hydrogen-isotope
+neutrals present are among the elements `hyd` the code looks up (hydrogen, deuterium, tritium in the current
+source).  Partial: a composition with another hydrogen-isotope neutral (e.g. `protium`) falls outside — see
+`trp_unlisted_isotope_witness`. -/
+theorem trp_eq_spec_partial (pi : α) (prov : Nat → Nat → Nat → Option (α → α → α)) (hyd : List Nat) (hn : hyd.Nodup)
+    (comp : List (Sp α)) (hk : KeysNodup comp) (hl : HydNeutralsListed comp hyd) (ne te mn mx : α) (e c : Nat)
+    (r : Option α) (h : totalRadiatedPower pi prov hyd comp ne te mn mx e c = some r) :
+    emitted r = PassiveSpec.totalRadiatedPower pi prov comp ne te mn mx e c := by
+  unfold PassiveSpec.totalRadiatedPower
+  have h4 : (4.0 : α) = 4 := by norm_num
+  rw [h4, densOf_val comp hk, densOf_val comp hk]
+  unfold totalRadiatedPower at h
+  cases h1 : getSp comp e c with
+  | none => rw [h1] at h; cases h
+  | some s =>
+    cases h2 : getSp comp e (c + 1) with
+    | none => rw [h1, h2] at h; cases h
+    | some su =>
+      rw [h1, h2] at h; cases h
+      rw [trpCall_val, trpNhyd_eq_spec comp hk hyd hn hl]
+      rfl
+
+/-- the same for the tuple of elements read from `total_radiated_power.pyx` on this run (`Gen/PassiveFlags.lean`) -/
+theorem trp_eq_spec_current_source (pi : α) (prov : Nat → Nat → Nat → Option (α → α → α))
+    (comp : List (Sp α)) (hk : KeysNodup comp) (hl : HydNeutralsListed comp Gen.PassiveFlags.trpHydrogenIds)
+    (ne te mn mx : α) (e c : Nat) (r : Option α)
+    (h : totalRadiatedPower pi prov Gen.PassiveFlags.trpHydrogenIds comp ne te mn mx e c = some r) :
+    emitted r = PassiveSpec.totalRadiatedPower pi prov comp ne te mn mx e c :=
+  trp_eq_spec_partial pi prov _ (by decide) comp hk hl ne te mn mx e c r h
+
+/-- **witness** (`hyd = [hydrogen, deuterium, tritium]` = ids 0, 2, 3, the tuple of the source this was written against): nitrogen 6+/7+ with a
+*protium* neutral (id 1, Z = 1): the documented CX power is positive, the model emits nothing. -/
+theorem trp_unlisted_isotope_witness :
+    let comp : List (Sp ℚ) := [⟨10, 7, 6, 0, 1⟩, ⟨10, 7, 7, 100, 10⟩, ⟨1, 1, 0, 10, 5⟩]
+    let prov : Nat → Nat → Nat → Option (ℚ → ℚ → ℚ) := fun _ _ _ => some (fun _ _ => 1)
+    totalRadiatedPower (3 : ℚ) prov [0, 2, 3] comp 1 1 0 1 10 6 = some (some (1 / 12 * 100)) ∧
+    PassiveSpec.totalRadiatedPower (3 : ℚ) prov comp 1 1 0 1 10 6 = 1 / 12 * (100 + 100 * 10) := by
+  constructor
+  · norm_num [totalRadiatedPower, getSp, isKey, trpCall, trpPower, trpTerm, trpNhyd, trpHydSpecies, recip4pi]
+  · norm_num [PassiveSpec.totalRadiatedPower, PassiveSpec.trpPowerDensity, PassiveSpec.densOf, PassiveSpec.nHyd,
+      PassiveSpec.sumOver, PassiveSpec.coeff]
+
+theorem sum_map_add_const (l : List α) (v : α) : (l.map (· + v)).sum = l.sum + l.length * v := by
+  induction l with
+  | nil => simp
+  | cons x t ih => simp [ih]; ring
+
+/-- **spread uniformly over the window**: every bin receives the same increment and
+Σ_bins increment · Δλ = P / 4π, whatever the number of bins and the window (`Δλ = (max − min)/bins`) -/
+theorem trp_integral (pi : α) (plt prb prc : Option (α → α → α)) (ne te ni niUp nhyd mn mx : α)
+    (hne : 0 < ne) (hte : 0 < te) (hpi : pi ≠ 0) (hw : mx ≠ mn) (samples : List α) (hb : samples.length ≠ 0) :
+    ((addToBins samples (trpCall pi plt prb prc ne te ni niUp nhyd mn mx)).sum - samples.sum)
+        * ((mx - mn) / samples.length)
+      = 1 / (4 * pi) * PassiveSpec.trpPowerDensity plt prb prc ne te ni niUp nhyd := by
+  have hv := trpCall_val pi plt prb prc ne te ni niUp nhyd mn mx
+  rw [if_pos ⟨hne, hte⟩] at hv
+  cases hc : trpCall pi plt prb prc ne te ni niUp nhyd mn mx with
+  | none =>
+    unfold trpCall at hc
+    simp [not_le.mpr hne, not_le.mpr hte] at hc
+  | some v =>
+    rw [hc] at hv
+    simp only [emitted, Option.getD_some] at hv
+    simp only [addToBins]
+    rw [sum_map_add_const, hv]
+    have hl : (samples.length : α) ≠ 0 := by exact_mod_cast hb
+    have hw' : mx - mn ≠ 0 := sub_ne_zero.mpr hw
+    field_simp
+    ring
+
+theorem trp_zero_guards (pi : α) (plt prb prc : Option (α → α → α)) (ne te ni niUp nhyd mn mx : α) :
+    ((ne ≤ 0 ∨ te ≤ 0) → trpCall pi plt prb prc ne te ni niUp nhyd mn mx = none) ∧
+    (ni ≤ 0 → niUp ≤ 0 → trpPower plt prb prc ne te ni niUp nhyd = 0) ∧
+    (ni ≤ 0 → trpPower plt prb prc ne te ni niUp nhyd = trpPower none prb prc ne te ni niUp nhyd) ∧
+    (niUp ≤ 0 → trpPower plt prb prc ne te ni niUp nhyd = trpPower plt none none ne te ni niUp nhyd) ∧
+    (nhyd ≤ 0 → trpPower plt prb prc ne te ni niUp nhyd = trpPower plt prb none ne te ni niUp nhyd) := by
+  refine ⟨?_, ?_, ?_, ?_, ?_⟩
+  · intro h; unfold trpCall; rcases h with h | h <;> simp [h]
+  · intro h1 h2; simp [trpPower_eq_spec, PassiveSpec.trpPowerDensity, not_lt.mpr h1, not_lt.mpr h2]
+  · intro h1; simp [trpPower_eq_spec, PassiveSpec.trpPowerDensity, not_lt.mpr h1]
+  · intro h2; simp [trpPower_eq_spec, PassiveSpec.trpPowerDensity, not_lt.mpr h2, PassiveSpec.coeff]
+  · intro h3; simp [trpPower_eq_spec, PassiveSpec.trpPowerDensity, not_lt.mpr h3, PassiveSpec.coeff]
+
+theorem trp_nonneg (pi : α) (hpi : 0 < pi) (plt prb prc : Option (α → α → α)) (ne te ni niUp nhyd mn mx : α)
+    (hw : mn < mx) (h0 : 0 ≤ PassiveSpec.coeff plt ne te) (h1 : 0 ≤ PassiveSpec.coeff prb ne te)
+    (h2 : 0 ≤ PassiveSpec.coeff prc ne te) :
+    0 ≤ emitted (trpCall pi plt prb prc ne te ni niUp nhyd mn mx) := by
+  rw [trpCall_val]
+  split_ifs with h
+  · have hw' : 0 < mx - mn := sub_pos.mpr hw
+    have hp : 0 ≤ PassiveSpec.trpPowerDensity plt prb prc ne te ni niUp nhyd := by
+      unfold PassiveSpec.trpPowerDensity
+      have := h.1
+      refine add_nonneg (add_nonneg ?_ ?_) ?_
+      · split_ifs <;> [positivity; exact le_refl _]
+      · split_ifs <;> [positivity; exact le_refl _]
+      · split_ifs with hh
+        · have := hh.1; have := hh.2; positivity
+        · exact le_refl _
+    positivity
+  · exact le_refl _
+
+/-- linear in each of the three densities it involves (each scales its own terms) -/
+theorem trp_linear_in_density (plt prb prc : Option (α → α → α)) (ne te ni niUp nhyd k : α) (hk : 0 < k) :
+    PassiveSpec.trpPowerDensity plt none none ne te (k * ni) niUp nhyd
+        = k * PassiveSpec.trpPowerDensity plt none none ne te ni niUp nhyd ∧
+    PassiveSpec.trpPowerDensity none prb prc ne te ni (k * niUp) nhyd
+        = k * PassiveSpec.trpPowerDensity none prb prc ne te ni niUp nhyd ∧
+    PassiveSpec.trpPowerDensity none none prc ne te ni niUp (k * nhyd)
+        = k * PassiveSpec.trpPowerDensity none none prc ne te ni niUp nhyd := by
+  have hpos : ∀ x : α, 0 < k * x ↔ 0 < x := by
+    intro x; constructor
+    · intro h; by_contra hc; push Not at hc; nlinarith
+    · intro h; positivity
+  unfold PassiveSpec.trpPowerDensity PassiveSpec.coeff
+  simp only [hpos]
+  refine ⟨?_, ?_, ?_⟩ <;> split_ifs <;> ring
+
+/-- the full power is the sum of the three single-process powers -/
+theorem trp_three_terms (plt prb prc : Option (α → α → α)) (ne te ni niUp nhyd : α) :
+    PassiveSpec.trpPowerDensity plt prb prc ne te ni niUp nhyd
+      = PassiveSpec.trpPowerDensity plt none none ne te ni niUp nhyd
+        + PassiveSpec.trpPowerDensity none prb none ne te ni niUp nhyd
+        + PassiveSpec.trpPowerDensity none none prc ne te ni niUp nhyd := by
+  unfold PassiveSpec.trpPowerDensity PassiveSpec.coeff
+  split_ifs <;> ring
+
+example : emitted (trpCall (α := ℚ) 3 (some fun _ _ => 2) (some fun _ _ => 3) (some fun _ _ => 5) 1 1 7 11 13 0 10)
+    = 1 / (4 * 3 * 10) * (7 * 1 * 2 + 11 * 1 * 3 + 11 * 13 * 5) := by
+  rw [trpCall_val]; norm_num [PassiveSpec.trpPowerDensity, PassiveSpec.coeff]
+
+/-! ## Bremsstrahlung -/
+
+/-- contribution of one cached (charge, density) pair -/
+def bremsTerm (gaunt : α → α → α → α) (te wvl : α) (p : α × α) : α :=
+  if p.2 > 0 then p.2 * gaunt p.1 te wvl * p.1 * p.1 else 0
+
+theorem bremsSum_sum (gaunt : α → α → α → α) (te wvl : α) (charges dens : List α) :
+    bremsSum gaunt te wvl charges dens = ((charges.zip dens).map (bremsTerm gaunt te wvl)).sum := by
+  unfold bremsSum
+  have : (fun (acc : α) (p : α × α) => if p.2 > 0 then acc + p.2 * gaunt p.1 te wvl * p.1 * p.1 else acc)
+      = fun acc p => acc + bremsTerm gaunt te wvl p := by
+    funext acc p; unfold bremsTerm; split_ifs <;> simp
+  rw [this, foldl_add_sum]; simp
+
+/-- the cached charge array and the density array filled at every call are aligned: the sum runs over the charged
+species, and — because the neutral terms carry `Z² = 0` — equals the documented sum over *all* species -/
+theorem bremsSum_composition (gaunt : α → α → α → α) (te wvl : α) (comp : List (Sp α)) :
+    bremsSum gaunt te wvl (bremsCharges comp) (bremsDensities comp)
+      = PassiveSpec.sumOver comp (fun s =>
+          if 0 < s.dens then s.dens * gaunt (s.charge : α) te wvl * ((s.charge : α) * (s.charge : α)) else 0) := by
+  rw [bremsSum_sum]
+  unfold bremsCharges bremsDensities PassiveSpec.sumOver
+  rw [List.zip_map', List.map_map, sum_filter_ite]
+  apply sum_map_congr
+  intro s _
+  simp only [Function.comp, bremsTerm, gt_iff_lt, decide_eq_true_eq]
+  by_cases hc : 0 < s.charge
+  · rw [if_pos hc]; split_ifs <;> ring
+  · have : s.charge = 0 := by omega
+    rw [if_neg hc, this]; simp
+
+/-- `sqrt` as a parameter: non-negative square root on non-negative arguments -/
+def SqrtSpec (sqrt : α → α) : Prop := ∀ x : α, 0 ≤ x → 0 ≤ sqrt x ∧ sqrt x * sqrt x = x
+
+theorem sqrt_div (sqrt : α → α) (hs : SqrtSpec sqrt) (a b : α) (ha : 0 ≤ a) (hb : 0 < b) :
+    sqrt (a / b) = sqrt a / sqrt b := by
+  obtain ⟨h1, h2⟩ := hs a ha
+  obtain ⟨h3, h4⟩ := hs b hb.le
+  obtain ⟨h5, h6⟩ := hs (a / b) (div_nonneg ha hb.le)
+  have hsb : 0 < sqrt b := by
+    rcases h3.lt_or_eq with h | h
+    · exact h
+    · rw [← h] at h4; simp at h4; exact absurd h4.symm hb.ne'
+  have hq : 0 ≤ sqrt a / sqrt b := div_nonneg h1 hsb.le
+  have hsq : (sqrt a / sqrt b) * (sqrt a / sqrt b) = a / b := by
+    rw [div_mul_div_comm, h2, h4]
+  have : (sqrt (a / b) - sqrt a / sqrt b) * (sqrt (a / b) + sqrt a / sqrt b) = 0 := by
+    ring_nf; ring_nf at h6 hsq; rw [h6, hsq]; ring
+  rcases mul_eq_zero.1 this with h | h
+  · exact sub_eq_zero.1 h
+  · have : sqrt (a / b) = 0 ∧ sqrt a / sqrt b = 0 := by
+      constructor <;> linarith
+    rw [this.1, this.2]
+
+/-- **the module constant**: the four-step product equals the closed form of the docstring / Hutchinson -/
+theorem brems_const_closed_form (sqrt : α → α) (pi e eps0 me c : α) :
+    bremsConst sqrt pi e eps0 me c
+      = (e ^ 2 / (4 * pi * eps0)) ^ 3 * (32 * pi ^ 2 / (3 * sqrt 3 * me ^ 2 * c ^ 3)) * sqrt (2 * me / (pi * e))
+          * (1000000000 * c / (4 * pi)) := by
+  unfold bremsConst recip4pi
+  have h4 : (4.0 : α) = 4 := by norm_num
+  have h32 : (32.0 : α) = 32 := by norm_num
+  have h3 : (3.0 : α) = 3 := by norm_num
+  have h2 : (2.0 : α) = 2 := by norm_num
+  have h9 : (1e9 : α) = 1000000000 := by norm_num
+  simp only [h4, h32, h3, h2, h9]
+  have hinv : (4 * pi * eps0)⁻¹ = (4 * pi)⁻¹ * eps0⁻¹ := mul_inv _ _
+  simp only [div_eq_mul_inv, one_mul, hinv]
+  ring
+
+theorem exp_factor_closed_form (h c e : α) : expFactor h c e = 1000000000 * h * c / e := by
+  unfold expFactor
+  have h9 : (1e9 : α) = 1000000000 := by norm_num
+  rw [h9]; ring
+
+theorem brems_const_pos (sqrt : α → α) (hs : ∀ x : α, 0 < x → 0 < sqrt x) (pi e eps0 me c : α)
+    (hpi : 0 < pi) (he : 0 < e) (heps : 0 < eps0) (hme : 0 < me) (hc : 0 < c) :
+    0 < bremsConst sqrt pi e eps0 me c := by
+  rw [brems_const_closed_form]
+  have h3 : 0 < sqrt 3 := hs 3 (by norm_num)
+  have h2 : 0 < sqrt (2 * me / (pi * e)) := hs _ (by positivity)
+  positivity
+
+/-- **bremsstrahlung function = Hutchinson (5.3.40) in wavelength form**, for every composition (neutrals, bare nuclei,
+non-positive densities included), `T_e > 0`, `λ > 0` -/
+theorem brems_eq_spec (sqrt exp : α → α) (hs : SqrtSpec sqrt) (pi e eps0 me c h : α)
+    (hpi : 0 < pi) (he : 0 < e) (heps : eps0 ≠ 0) (hme : 0 < me) (hc : c ≠ 0)
+    (gaunt : α → α → α → α) (comp : List (Sp α)) (ne te wvl : α) (hte : 0 < te) (hw : wvl ≠ 0) :
+    bremsFunction sqrt exp (bremsConst sqrt pi e eps0 me c) (expFactor h c e) gaunt ne te
+        (bremsCharges comp) (bremsDensities comp) wvl
+      = PassiveSpec.bremsstrahlung sqrt exp pi e eps0 me c h gaunt comp ne te wvl := by
+  unfold bremsFunction PassiveSpec.bremsstrahlung
+  rw [bremsSum_composition, brems_const_closed_form, exp_factor_closed_form]
+  have h4 : (4.0 : α) = 4 := by norm_num
+  have h32 : (32.0 : α) = 32 := by norm_num
+  have h3 : (3.0 : α) = 3 := by norm_num
+  have h2 : (2.0 : α) = 2 := by norm_num
+  have h9 : (1e9 : α) = 1000000000 := by norm_num
+  simp only [h4, h32, h3, h2, h9]
+  have hexp : -(1000000000 * h * c / e) / (te * wvl) = -(1000000000 * h * c / (e * te * wvl)) := by
+    field_simp
+  have hsq : sqrt (2 * me / (pi * e * te)) = sqrt (2 * me / (pi * e)) / sqrt te := by
+    have : 2 * me / (pi * e * te) = (2 * me / (pi * e)) / te := by field_simp
+    rw [this, sqrt_div sqrt hs _ _ (by positivity) hte]
+  rw [hexp, hsq]
+  have hst : sqrt te ≠ 0 := by
+    obtain ⟨h1, h2'⟩ := hs te hte.le
+    intro h0; rw [h0] at h2'; simp at h2'; exact hte.ne' h2'.symm
+  have hinv1 : (4 * pi * eps0)⁻¹ = (4 * pi)⁻¹ * eps0⁻¹ := mul_inv _ _
+  have hinv2 : (sqrt te * wvl * wvl)⁻¹ = (sqrt te)⁻¹ * wvl⁻¹ * wvl⁻¹ := by rw [mul_inv, mul_inv]
+  have hinv3 : (4 * pi * (wvl * wvl))⁻¹ = (4 * pi)⁻¹ * wvl⁻¹ * wvl⁻¹ := by rw [mul_inv, mul_inv]; ring
+  simp only [div_eq_mul_inv, hinv1, hinv2, hinv3]
+  ring
+
+/-- emission is switched off by `n_e ≤ 0` or `T_e ≤ 0`; a species of non-positive density contributes nothing -/
+theorem brems_zero_guards (sqrt exp : α → α) (bc ef : α) (gaunt : α → α → α → α)
+    (integ : (α → α) → α → α → α) (comp : List (Sp α)) (ne te mn delta : α) (bins : Nat) (te' wvl z n : α) :
+    ((ne ≤ 0 ∨ te ≤ 0) → bremsEmission sqrt exp bc ef gaunt integ comp ne te mn delta bins = none) ∧
+    (n ≤ 0 → bremsTerm gaunt te' wvl (z, n) = 0) := by
+  constructor
+  · intro h; unfold bremsEmission; rcases h with h | h <;> simp [h]
+  · intro h; unfold bremsTerm; simp [not_lt.mpr h]
+
+theorem bremsSum_nonneg (gaunt : α → α → α → α) (hg : ∀ z t w, 0 ≤ gaunt z t w) (te wvl : α) (charges dens : List α) :
+    0 ≤ bremsSum gaunt te wvl charges dens := by
+  rw [bremsSum_sum]
+  apply sum_map_nonneg
+  intro p _
+  unfold bremsTerm
+  split_ifs with h
+  · have : 0 ≤ p.1 * p.1 := mul_self_nonneg _
+    have h1 : 0 ≤ p.2 * gaunt p.1 te wvl := mul_nonneg (le_of_lt h) (hg _ _ _)
+    calc 0 ≤ (p.2 * gaunt p.1 te wvl) * (p.1 * p.1) := mul_nonneg h1 this
+      _ = p.2 * gaunt p.1 te wvl * p.1 * p.1 := by ring
+  · exact le_refl _
+
+/-- never negative for a non-negative Gaunt factor (any charges, any densities) -/
+theorem brems_nonneg (sqrt exp : α → α) (hsq : ∀ x : α, 0 < x → 0 < sqrt x) (hexp : ∀ x : α, 0 < exp x) (bc ef : α)
+    (hbc : 0 ≤ bc) (gaunt : α → α → α → α) (hg : ∀ z t w, 0 ≤ gaunt z t w) (ne te : α) (hne : 0 ≤ ne) (hte : 0 < te)
+    (charges dens : List α) (wvl : α) :
+    0 ≤ bremsFunction sqrt exp bc ef gaunt ne te charges dens wvl := by
+  unfold bremsFunction
+  have h1 := bremsSum_nonneg gaunt hg te wvl charges dens
+  have h2 := hsq te hte
+  have h3 := hexp (-ef / (te * wvl))
+  have h4 : 0 ≤ sqrt te * wvl * wvl := by
+    have : 0 ≤ wvl * wvl := mul_self_nonneg _
+    calc 0 ≤ sqrt te * (wvl * wvl) := mul_nonneg h2.le this
+      _ = sqrt te * wvl * wvl := by ring
+  have h5 : 0 ≤ bc / (sqrt te * wvl * wvl) := div_nonneg hbc h4
+  exact mul_nonneg (mul_nonneg (mul_nonneg h5 hne) h1) h3.le
+
+/-- linear in every ion density: a species' term scales with its density, and the sum is additive over species -/
+theorem brems_linear_in_density (gaunt : α → α → α → α) (te wvl z n k : α) (hk : 0 < k) (zs ns : List α) :
+    bremsTerm gaunt te wvl (z, k * n) = k * bremsTerm gaunt te wvl (z, n) ∧
+    bremsSum gaunt te wvl (z :: zs) (n :: ns) = bremsTerm gaunt te wvl (z, n) + bremsSum gaunt te wvl zs ns := by
+  constructor
+  · unfold bremsTerm
+    have : k * n > 0 ↔ n > 0 := by
+      constructor
+      · intro h; by_contra hc; push Not at hc; nlinarith
+      · intro h; positivity
+    simp only [this]; split_ifs <;> ring
+  · simp [bremsSum_sum]
+
+/-- … and the whole function is linear in the electron density -/
+theorem brems_linear_in_ne (sqrt exp : α → α) (bc ef : α) (gaunt : α → α → α → α) (ne te k : α)
+    (charges dens : List α) (wvl : α) :
+    bremsFunction sqrt exp bc ef gaunt (k * ne) te charges dens wvl
+      = k * bremsFunction sqrt exp bc ef gaunt ne te charges dens wvl := by
+  unfold bremsFunction; ring
+
+/-! ### the bin loop -/
+
+theorem bremsBins_map (integ : α → α → α) (mn delta : α) (k i : Nat) (lower : α) :
+    bremsBinsFrom integ mn delta k i lower
+      = (bremsEdgesFrom mn delta k i lower).map (fun ab => integ ab.1 ab.2 / delta) := by
+  induction k generalizing i lower with
+  | zero => rfl
+  | succ k ih => simp [bremsBinsFrom, bremsEdgesFrom, ih]
+
+/-- **bin edges**: the j-th call of the integrator covers `[min + jΔ, min + (j+1)Δ]` (the running lower limit is the
+previous upper limit; the first is `min` itself) -/
+theorem brems_bins_edges (mn delta : α) (k i : Nat) (j : Nat) (hj : j < k) :
+    (bremsEdgesFrom mn delta k i (mn + delta * (i : α)))[j]?
+      = some (mn + delta * ((i + j : Nat) : α), mn + delta * ((i + j + 1 : Nat) : α)) := by
+  induction k generalizing i j with
+  | zero => omega
+  | succ k ih =>
+    cases j with
+    | zero => simp [bremsEdgesFrom]
+    | succ j =>
+      simp only [bremsEdgesFrom, List.getElem?_cons_succ]
+      rw [ih (i + 1) j (by omega)]
+      have : i + 1 + j = i + (j + 1) := by omega
+      rw [this]
+
+theorem bremsBinsFrom_length (integ : α → α → α) (mn delta : α) (k i : Nat) (lower : α) :
+    (bremsBinsFrom integ mn delta k i lower).length = k := by
+  induction k generalizing i lower with
+  | zero => rfl
+  | succ k ih => simp [bremsBinsFrom, ih]
+
+/-- one increment per spectral bin -/
+theorem brems_bins_length (integ : α → α → α) (mn delta : α) (bins : Nat) :
+    (bremsBins integ mn delta bins).length = bins := bremsBinsFrom_length integ mn delta bins 0 mn
+
+/-- an integrator that is additive over adjacent intervals (true of the exact integral) -/
+def Additive (integ : α → α → α) : Prop := ∀ a b c : α, integ a b + integ b c = integ a c
+
+theorem bremsBinsFrom_total (integ : α → α → α) (ha : Additive integ) (mn delta : α) (hd : delta ≠ 0) (k i : Nat) :
+    (bremsBinsFrom integ mn delta k i (mn + delta * (i : α))).sum * delta
+      = integ (mn + delta * (i : α)) (mn + delta * ((i + k : Nat) : α)) := by
+  induction k generalizing i with
+  | zero =>
+    have h0 : integ (mn + delta * (i : α)) (mn + delta * (i : α)) = 0 := by
+      have := ha (mn + delta * (i : α)) (mn + delta * (i : α)) (mn + delta * (i : α))
+      linarith
+    simp [bremsBinsFrom, h0]
+  | succ k ih =>
+    simp only [bremsBinsFrom, List.sum_cons, add_mul]
+    rw [ih (i + 1), div_mul_cancel₀ _ hd, ha]
+    have : i + 1 + k = i + (k + 1) := by omega
+    rw [this]
+
+/-- **bin average**: with an exact (additive) integrator the increments, weighted by the bin width, add up to the
+integral of the documented spectrum over the whole window `[min, min + bins·Δ]`; each is the bin average -/
+theorem brems_bins_total (integ : α → α → α) (ha : Additive integ) (mn delta : α) (hd : delta ≠ 0) (bins : Nat) :
+    (bremsBins integ mn delta bins).sum * delta = integ mn (mn + delta * (bins : α)) := by
+  have := bremsBinsFrom_total integ ha mn delta hd bins 0
+  simp only [Nat.cast_zero, mul_zero, add_zero, zero_add] at this
+  exact this
+
+theorem brems_bin_is_average (integ : α → α → α) (mn delta : α) (bins j : Nat) (hj : j < bins) :
+    (bremsBins integ mn delta bins)[j]?
+      = some (integ (mn + delta * (j : α)) (mn + delta * ((j + 1 : Nat) : α)) / delta) := by
+  unfold bremsBins
+  rw [bremsBins_map]
+  have h := brems_bins_edges mn delta bins 0 j hj
+  simp only [Nat.cast_zero, mul_zero, add_zero, zero_add] at h
+  rw [List.getElem?_map, h]; rfl
+
+/-! ## GaussianQuadrature (the default per-bin integrator) -/
+
+theorem gqOrder_const (kc c d : α) (rule : List (α × α)) (hw : (rule.map Prod.snd).sum = 2) :
+    gqOrder (fun _ => kc) c d rule = kc * (2 * d) := by
+  unfold gqOrder
+  rw [foldl_add_sum]
+  have : (rule.map fun xw => xw.2 * kc).sum = kc * (rule.map Prod.snd).sum := by
+    rw [← sum_map_mul_left]; apply sum_map_congr; intro s _; ring
+  rw [this, hw]; ring
+
+theorem gqLoop_const (kc c d rtol : α) (rules : List (List (α × α)))
+    (hw : ∀ r ∈ rules, (r.map Prod.snd).sum = 2) (old : Option α) (last : α) (hl : rules = [] → last = kc * (2 * d)) :
+    gqLoop (fun _ => kc) c d rtol rules old last = kc * (2 * d) := by
+  induction rules generalizing old last with
+  | nil => simp [gqLoop, hl]
+  | cons r rs ih =>
+    have hr := gqOrder_const kc c d r (hw r (by simp))
+    simp only [gqLoop, hr]
+    split_ifs
+    · rfl
+    · exact ih (fun r' hr' => hw r' (by simp [hr'])) _ _ (fun _ => rfl)
+
+/-- a spectrum that is constant over the bin is integrated exactly, whatever the stopping rule does: the bin average
+of a flat emissivity is that emissivity (rules whose weights sum to 2, as all Gauss–Legendre rules do) -/
+theorem gauss_quad_const_exact (kc a b rtol : α) (rules : List (List (α × α))) (hne : rules ≠ [])
+    (hw : ∀ r ∈ rules, (r.map Prod.snd).sum = 2) :
+    gaussQuad rules rtol (fun _ => kc) a b = kc * (b - a) := by
+  unfold gaussQuad
+  rw [gqLoop_const kc _ _ rtol rules hw none 0 (fun h => absurd h hne)]
+  have h5 : (0.5 : α) = 1 / 2 := by norm_num
+  rw [h5]; ring
+
+/-- the first order is never accepted on its own (`oldval = INFINITY`): with two or more rules at least two are evaluated -/
+theorem gauss_quad_first_not_accepted (f : α → α) (c d rtol : α) (r1 r2 : List (α × α)) (rs : List (List (α × α))) (last : α) :
+    gqLoop f c d rtol (r1 :: r2 :: rs) none last
+      = gqLoop f c d rtol (r2 :: rs) (some (gqOrder f c d r1)) (gqOrder f c d r1) := by
+  simp [gqLoop]
+
+/-! ## Free-free Gaunt factor: branch logic of `InterpolatedFreeFreeGauntFactor.evaluate` -/
+
+theorem gaunt_branches (sqrt log log10 : α → α) (interp : α → α → α)
+    (pi euler ryd ph umin umax g2min g2max z te wvl : α) :
+    gauntFactor sqrt log log10 interp pi euler ryd ph umin umax g2min g2max z te wvl
+      = match gauntBranch ryd ph umin umax g2min g2max z te wvl with
+        | 0 => 0
+        | 1 => 1
+        | 2 => sqrt 3 / pi * (log (4 / (ph / (te * wvl))) - euler)
+        | _ => interp (log10 (ph / (te * wvl))) (log10 (z * z * ryd / te)) := by
+  unfold gauntFactor gauntBranch
+  have h3 : (3.0 : α) = 3 := by norm_num
+  have h4 : (4.0 : α) = 4 := by norm_num
+  simp only [h3, h4]
+  split_ifs <;> rfl
+
+theorem gaunt_zero_charge (ryd ph umin umax g2min g2max te wvl : α) :
+    gauntBranch ryd ph umin umax g2min g2max 0 te wvl = 0 := by
+  simp [gauntBranch]
+
+/-- classical limit above the table, Born approximation below it, table only strictly inside its range: the
+interpolator is never asked to extrapolate -/
+theorem gaunt_branch_conditions (ryd ph umin umax g2min g2max z te wvl : α) (hz : z ≠ 0) :
+    let u := ph / (te * wvl)
+    let g2 := z * z * ryd / te
+    (gauntBranch ryd ph umin umax g2min g2max z te wvl = 1 ↔ (umax ≤ u ∨ g2max ≤ g2)) ∧
+    (gauntBranch ryd ph umin umax g2min g2max z te wvl = 2 ↔ (u < umax ∧ g2 < g2max) ∧ (u < umin ∨ g2 < g2min)) ∧
+    (gauntBranch ryd ph umin umax g2min g2max z te wvl = 3 ↔ (umin ≤ u ∧ u < umax) ∧ (g2min ≤ g2 ∧ g2 < g2max)) := by
+  intro u g2
+  unfold gauntBranch
+  simp only [beq_iff_eq, hz, if_false, ge_iff_le, Bool.or_eq_true, decide_eq_true_eq]
+  by_cases h1 : umax ≤ u ∨ g2max ≤ g2
+  · have h1c : umax ≤ ph / (te * wvl) ∨ g2max ≤ z * z * ryd / te := h1
+    simp only [h1c, if_true]
+    refine ⟨by simp [h1], ?_, ?_⟩
+    · constructor
+      · intro h; cases h
+      · intro h; rcases h1 with h1 | h1
+        · exact absurd h.1.1 (not_lt.mpr h1)
+        · exact absurd h.1.2 (not_lt.mpr h1)
+    · constructor
+      · intro h; cases h
+      · intro h; rcases h1 with h1 | h1
+        · exact absurd h.1.2 (not_lt.mpr h1)
+        · exact absurd h.2.2 (not_lt.mpr h1)
+  · have h1c : ¬(umax ≤ ph / (te * wvl) ∨ g2max ≤ z * z * ryd / te) := h1
+    simp only [h1c, if_false]
+    have h1' := h1
+    push Not at h1'
+    by_cases h2 : u < umin ∨ g2 < g2min
+    · have h2c : ph / (te * wvl) < umin ∨ z * z * ryd / te < g2min := h2
+      simp only [h2c, if_true]
+      refine ⟨by simp [h1], by simp [h1', h2], ?_⟩
+      constructor
+      · intro h; cases h
+      · intro h; rcases h2 with h2 | h2
+        · exact absurd h.1.1 (not_le.mpr h2)
+        · exact absurd h.2.1 (not_le.mpr h2)
+    · have h2c : ¬(ph / (te * wvl) < umin ∨ z * z * ryd / te < g2min) := h2
+      simp only [h2c, if_false]
+      have h2' := h2
+      push Not at h2'
+      refine ⟨by simp [h1], by simp [h2], by simp [h1', h2']⟩
+
+/-! ## RadiationFunction -/
+
+/-- Σ_bins emission · Δλ = φ / 4π for a window of any size and any number of bins -/
+theorem radfn_integral (pi phi rmin rmax : α) (hpi : pi ≠ 0) (hw : rmax ≠ rmin) (bins : Nat) (hb : bins ≠ 0) :
+    (List.replicate bins (radiationFunction pi phi rmin rmax)).sum * ((rmax - rmin) / bins) = phi / (4 * pi) := by
+  unfold radiationFunction
+  have h4 : (4.0 : α) = 4 := by norm_num
+  rw [h4, List.sum_replicate, nsmul_eq_mul]
+  have hl : (bins : α) ≠ 0 := by exact_mod_cast hb
+  have hw' : rmax - rmin ≠ 0 := sub_ne_zero.mpr hw
+  field_simp
+
+/-! ## Physical constants: `constants.pyx` (regenerated into `Gen/Constants.lean` on every run) vs CODATA 2018 -/
+
+/-- the exact rational denoted by a hand-written decimal of `Model/Codata.lean` -/
+def decQ (d : Codata.Dec) : ℚ := (d.mant : ℚ) * (10 : ℚ) ^ d.exp10
+
+/-- **every constant the passive emission models use** (`e`, `c`, `h` exact by SI definition; `m_e`, `ε₀`, `Ry` measured,
+all published digits) **and** the atomic mass constant and classical electron radius equal their CODATA-2018 values -/
+theorem constants_match_codata :
+    (Gen.Constants.ELEMENTARY_CHARGE : ℚ) = decQ Codata.elementaryCharge ∧
+    (Gen.Constants.SPEED_OF_LIGHT : ℚ) = decQ Codata.speedOfLight ∧
+    (Gen.Constants.PLANCK_CONSTANT : ℚ) = decQ Codata.planck ∧
+    (Gen.Constants.ELECTRON_REST_MASS : ℚ) = decQ Codata.electronMass ∧
+    (Gen.Constants.VACUUM_PERMITTIVITY : ℚ) = decQ Codata.vacuumPermittivity ∧
+    (Gen.Constants.RYDBERG_CONSTANT_EV : ℚ) = decQ Codata.rydbergEv ∧
+    (Gen.Constants.ATOMIC_MASS : ℚ) = decQ Codata.atomicMass ∧
+    (Gen.Constants.ELECTRON_CLASSICAL_RADIUS : ℚ) = decQ Codata.electronClassicalRadius ∧
+    (Gen.Constants.EULER_GAMMA : ℚ) = decQ Codata.eulerGamma := by
+  refine ⟨?_, ?_, ?_, ?_, ?_, ?_, ?_, ?_, ?_⟩ <;>
+    norm_num [decQ, Gen.Constants.ELEMENTARY_CHARGE, Gen.Constants.SPEED_OF_LIGHT, Gen.Constants.PLANCK_CONSTANT,
+      Gen.Constants.ELECTRON_REST_MASS, Gen.Constants.VACUUM_PERMITTIVITY, Gen.Constants.RYDBERG_CONSTANT_EV,
+      Gen.Constants.ATOMIC_MASS, Gen.Constants.ELECTRON_CLASSICAL_RADIUS, Gen.Constants.EULER_GAMMA,
+      Codata.elementaryCharge, Codata.speedOfLight, Codata.planck, Codata.electronMass, Codata.vacuumPermittivity,
+      Codata.rydbergEv, Codata.atomicMass, Codata.electronClassicalRadius, Codata.eulerGamma]
+
+/-- the translator's polymorphic literal and its (mantissa, exponent) rendering denote the same number, and the
+derived constants are written as expected (`RECIP_4_PI = 1 / (4 * M_PI)` is what `recip4pi` models) -/
+theorem constants_translation_consistent :
+    (Gen.Constants.ELEMENTARY_CHARGE : ℚ) = (Gen.Constants.ELEMENTARY_CHARGE_mant : ℚ) * 10 ^ Gen.Constants.ELEMENTARY_CHARGE_exp10 ∧
+    (Gen.Constants.ELECTRON_REST_MASS : ℚ) = (Gen.Constants.ELECTRON_REST_MASS_mant : ℚ) * 10 ^ Gen.Constants.ELECTRON_REST_MASS_exp10 ∧
+    (Gen.Constants.VACUUM_PERMITTIVITY : ℚ) = (Gen.Constants.VACUUM_PERMITTIVITY_mant : ℚ) * 10 ^ Gen.Constants.VACUUM_PERMITTIVITY_exp10 ∧
+    Gen.Constants.derived.lookup "RECIP_4_PI" = some "1 / (4 * M_PI)" ∧
+    Gen.Constants.literalNames = ["ATOMIC_MASS", "ELEMENTARY_CHARGE", "SPEED_OF_LIGHT", "PLANCK_CONSTANT", "HC_EV_NM",
+      "ELECTRON_CLASSICAL_RADIUS", "ELECTRON_REST_MASS", "RYDBERG_CONSTANT_EV", "VACUUM_PERMITTIVITY", "BOHR_MAGNETON",
+      "EULER_GAMMA"] := by
+  refine ⟨?_, ?_, ?_, by decide, by decide⟩ <;>
+    norm_num [Gen.Constants.ELEMENTARY_CHARGE, Gen.Constants.ELEMENTARY_CHARGE_mant, Gen.Constants.ELEMENTARY_CHARGE_exp10,
+      Gen.Constants.ELECTRON_REST_MASS, Gen.Constants.ELECTRON_REST_MASS_mant, Gen.Constants.ELECTRON_REST_MASS_exp10,
+      Gen.Constants.VACUUM_PERMITTIVITY, Gen.Constants.VACUUM_PERMITTIVITY_mant, Gen.Constants.VACUUM_PERMITTIVITY_exp10]
+
+/-- `EXP_FACTOR` / `PH_TO_EV_FACTOR` built from the code's literals is the exact SI value of `10⁹ h c / e` -/
+theorem exp_factor_exact :
+    expFactor (Gen.Constants.PLANCK_CONSTANT : ℚ) Gen.Constants.SPEED_OF_LIGHT Gen.Constants.ELEMENTARY_CHARGE
+      = 1000000000 * decQ Codata.planck * decQ Codata.speedOfLight / decQ Codata.elementaryCharge := by
+  norm_num [expFactor, decQ, Gen.Constants.ELEMENTARY_CHARGE, Gen.Constants.SPEED_OF_LIGHT, Gen.Constants.PLANCK_CONSTANT,
+    Codata.elementaryCharge, Codata.speedOfLight, Codata.planck]
+
+/-- **observation outside C03** (the two constants are used by the Zeeman / Stark line shapes only, not by any passive
+emission total): `HC_EV_NM` and `BOHR_MAGNETON` are *not* the CODATA-2018 values the comment in `constants.pyx` claims
+(they are the 2014 adjustment): `HC_EV_NM` differs from the exact `10⁹hc/e` by 8.4·10⁻⁹ (relative), `BOHR_MAGNETON`
+from the 2018 value by more than two standard uncertainties; both deviations are below 10⁻⁸. -/
+theorem hc_ev_nm_bohr_magneton_not_codata2018 :
+    let hc : ℚ := 1000000000 * decQ Codata.planck * decQ Codata.speedOfLight / decQ Codata.elementaryCharge
+    (Gen.Constants.HC_EV_NM : ℚ) ≠ hc ∧ |(Gen.Constants.HC_EV_NM : ℚ) - hc| < hc / 100000000 ∧
+    hc / 125000000 < |(Gen.Constants.HC_EV_NM : ℚ) - hc| ∧
+    2 * decQ Codata.bohrMagnetonEvUnc < |(Gen.Constants.BOHR_MAGNETON : ℚ) - decQ Codata.bohrMagnetonEv| ∧
+    |(Gen.Constants.BOHR_MAGNETON : ℚ) - decQ Codata.bohrMagnetonEv| < decQ Codata.bohrMagnetonEv / 1000000000 := by
+  intro hc
+  have hval : hc = 1000000000 * (662607015 / 10 ^ 42) * 299792458 / (1602176634 / 10 ^ 28) := by
+    norm_num [hc, decQ, Codata.planck, Codata.speedOfLight, Codata.elementaryCharge]
+  have h1 : (Gen.Constants.HC_EV_NM : ℚ) = 12398419738620933 / 10000000000000 := by
+    norm_num [Gen.Constants.HC_EV_NM]
+  have h2 : (Gen.Constants.BOHR_MAGNETON : ℚ) = 578838180123 / 10000000000000000 := by
+    norm_num [Gen.Constants.BOHR_MAGNETON]
+  have h3 : decQ Codata.bohrMagnetonEv = 57883818060 / 1000000000000000 := by
+    norm_num [decQ, Codata.bohrMagnetonEv]
+  have h4 : decQ Codata.bohrMagnetonEvUnc = 17 / 1000000000000000 := by
+    norm_num [decQ, Codata.bohrMagnetonEvUnc]
+  rw [hval, h1, h2, h3, h4]
+  have n1 : (12398419738620933 / 10000000000000 : ℚ)
+      - 1000000000 * (662607015 / 10 ^ 42) * 299792458 / (1602176634 / 10 ^ 28) < 0 := by norm_num
+  have n2 : (578838180123 / 10000000000000000 : ℚ) - 57883818060 / 1000000000000000 < 0 := by norm_num
+  rw [abs_of_neg n1, abs_of_neg n2]
+  refine ⟨by norm_num, by norm_num, by norm_num, by norm_num, by norm_num⟩
+
+/-! ## Non-vacuity: the hypotheses on the external functions are satisfiable (ℝ), and the bin theorems have instances -/
+
+example : SqrtSpec Real.sqrt := fun x hx => ⟨Real.sqrt_nonneg x, Real.mul_self_sqrt hx⟩
+example : ∀ x : ℝ, 0 < x → 0 < Real.sqrt x := fun _ hx => Real.sqrt_pos.2 hx
+example : ∀ x : ℝ, 0 < Real.exp x := Real.exp_pos
+
+/-- `brems_eq_spec` and `brems_nonneg` instantiated at ℝ with the real `sqrt`, `exp` -/
+example (pi e eps0 me c h : ℝ) (hpi : 0 < pi) (he : 0 < e) (heps : 0 < eps0) (hme : 0 < me) (hc : 0 < c)
+    (gaunt : ℝ → ℝ → ℝ → ℝ) (hg : ∀ z t w, 0 ≤ gaunt z t w) (comp : List (Sp ℝ)) (ne te wvl : ℝ)
+    (hne : 0 ≤ ne) (hte : 0 < te) (hw : 0 < wvl) :
+    0 ≤ PassiveSpec.bremsstrahlung Real.sqrt Real.exp pi e eps0 me c h gaunt comp ne te wvl := by
+  rw [← brems_eq_spec Real.sqrt Real.exp (fun x hx => ⟨Real.sqrt_nonneg x, Real.mul_self_sqrt hx⟩) pi e eps0 me c h
+    hpi he heps.ne' hme hc.ne' gaunt comp ne te wvl hte hw.ne']
+  exact brems_nonneg Real.sqrt Real.exp (fun _ hx => Real.sqrt_pos.2 hx) Real.exp_pos _ _
+    (brems_const_pos Real.sqrt (fun _ hx => Real.sqrt_pos.2 hx) pi e eps0 me c hpi he heps hme hc).le gaunt hg ne te hne hte _ _ wvl
+
+/-- an exact integrator is additive: `∫_a^b f = F b − F a` -/
+example (F : ℚ → ℚ) : Additive (fun a b => F b - F a) := fun a b c => by ring
+
+example : (bremsBins (α := ℚ) (fun a b => b * b - a * a) 400 (1 / 2) 4).sum * (1 / 2) = 402 * 402 - 400 * 400 := by
+  rw [brems_bins_total _ (fun a b c => by ring) _ _ (by norm_num)]; norm_num
+
+/-- the one- and two-point Gauss–Legendre rules integrate a constant exactly (weights 2; 1 + 1) -/
+example : gaussQuad (α := ℚ) [[(0, 2)], [(-1 / 2, 1), (1 / 2, 1)]] (1 / 100000) (fun _ => 7) 400 403 = 21 := by
+  rw [gauss_quad_const_exact 7 400 403 _ _ (by simp) (by intro r hr; simp at hr; rcases hr with h | h <;> subst h <;> norm_num)]
+  norm_num
+
+example : gauntBranch (α := ℚ) 13 1240 (1 / 10) 10 (1 / 10) 10 1 100 500 = 2 := by
+  norm_num [gauntBranch]
+
+example : KeysNodup ([⟨9, 6, 5, 1, 1⟩, ⟨9, 6, 6, 2, 1⟩, ⟨2, 1, 0, 3, 1⟩] : List (Sp ℚ)) := by
+  unfold KeysNodup; decide
+
+example : HydNeutralsListed ([⟨9, 6, 5, 1, 1⟩, ⟨0, 1, 0, 2, 1⟩, ⟨2, 1, 0, 3, 1⟩, ⟨2, 1, 1, 3, 1⟩] : List (Sp ℚ))
+    Gen.PassiveFlags.trpHydrogenIds := by
+  intro s hs h0
+  simp only [List.mem_cons, List.not_mem_nil, or_false] at hs
+  rcases hs with h | h | h | h <;> subst h <;> simp_all [Gen.PassiveFlags.trpHydrogenIds]
 
 end Cherab.Props.C03
